@@ -119,11 +119,15 @@ def run_check(prop, tier):
     nviol = 0
     deadline = spec["deadline"][tier]
     runs = [r for r in spec["runs"] if tier in r.get("tiers", ("quick", "thorough"))]
+    built = {}
     for ri, run in enumerate(runs):
         name = run.get("name", run["plan"])
-        bdir = os.path.join(VERIF, "build", "%s.%s" % (prop, tier), name)
-        exe = build_run(run, bdir)
-        out = os.path.join(bdir, "out.txt")
+        flav = (run.get("san", "asan"), run.get("hooks", False), run.get("nosse", False), tuple(run["srcs"]))
+        if flav not in built:
+            bdir = os.path.join(VERIF, "build", "%s.%s" % (prop, tier), "f%d" % len(built))
+            built[flav] = (build_run(run, bdir), bdir)
+        exe, bdir = built[flav]
+        out = os.path.join(bdir, "out.%s.txt" % name)
         env = B.env_for(bdir, run.get("san", "asan"))
         left = max(10.0, deadline - (time.time() - t0)) if deadline else 0
         share = left / (len(runs) - ri) if deadline else 0
@@ -145,6 +149,7 @@ def run_check(prop, tier):
         samples += [s for s in pick if s not in samples]
         complete = C.get("groups_unclaimed", 0) == 0 and not C.get("deadline_hit") and not C.get("stopped_early") and C.get("groups_total", -1) >= 0
         desc = "%s: %d groups, %d cases" % (name, C.get("groups_done", 0), C.get("cases", 0))
+        desc += ", %.0f s" % C.get("wall_s", 0)
         if complete:
             bounds_done.append(desc)
         else:
@@ -184,7 +189,8 @@ def run_check(prop, tier):
                 sys.stderr.write("HARNESS ERROR: violation did not reproduce on replay: %s %s\n" % (key, site))
                 raise SystemExit(2)
             unknown.append((v, rp))
-        shutil.rmtree(bdir, ignore_errors=True) if not os.environ.get("VERIF_KEEP_BUILD") else None
+    if not os.environ.get("VERIF_KEEP_BUILD"):
+        shutil.rmtree(os.path.join(VERIF, "build", "%s.%s" % (prop, tier)), ignore_errors=True)
     for (kind, value), (k, v) in known_hits.items():
         log("KNOWN-FINDING: property=%s %s=%s %s [e.g. %s: %s]" % (prop, kind, value, k["text"], v["key"], v["detail"][:200]))
     for k in known:
